@@ -125,7 +125,8 @@ class H(WsHarness):
         return [t for t in asyncio.all_tasks(self.loop)
                 if t is not cur and not t.done() and getattr(t, 'sim_root', None) is root
                 and t is not getattr(self, 'bg_task', None)
-                and t not in getattr(self, 'rbg_tasks', ())]      # the script's own receiver task
+                and t not in getattr(self, 'rbg_tasks', ())       # the script's own receiver task
+                and t not in getattr(self, 'bg_tasks', ())]       # ... and sender tasks
 
     def close_check(self):
         if self.conn.in_receive:
@@ -297,11 +298,14 @@ def run(ctx):
     else:
         cfg['lost_mode'] = ch.choice(['oserror', 'drop', 'wsexc'], 'lost_mode')
     cfg['max_steps'] = 3000
+    # does the responder wait for its background senders before it closes, or close under them?
+    cfg['close_joins_bg'] = ch.draw(3, 'close_joins_bg') != 2
     ctx.plan = {'cfg': {k: v for k, v in cfg.items()},
                 'client': [_brief_ev(e) for e in client['events']],
                 'script': [list(map(_j, op)) for op in script]}
     ctx.plan_key = json.dumps(ctx.plan, sort_keys=True, default=repr)
     h = H(ctx, cfg, client, script)
+    h.close_joins_bg = cfg['close_joins_bg']
     n_bg = 0
     if ch.draw(4, 'second_connection') == 3:
         # another client talks to the same app at the same time
